@@ -228,3 +228,29 @@ func AllFunctions(fn *ssa.Function) []*ssa.Function {
 
 // FuncDisplayName names an SSA function relative to the module.
 func FuncDisplayName(f *ssa.Function) string { return funcName(f) }
+
+// FuncValueOf strips interface and type conversions from v and returns the
+// function it denotes (a named function, a method value wrapper or the body of
+// a closure); nil when v is not a function value known statically.
+func FuncValueOf(v ssa.Value) *ssa.Function {
+	for i := 0; i < 6 && v != nil; i++ {
+		switch x := v.(type) {
+		case *ssa.Function:
+			return x
+		case *ssa.MakeClosure:
+			fn, _ := x.Fn.(*ssa.Function)
+			return fn
+		case *ssa.MakeInterface:
+			v = x.X
+		case *ssa.ChangeType:
+			v = x.X
+		case *ssa.Convert:
+			v = x.X
+		case *ssa.ChangeInterface:
+			v = x.X
+		default:
+			return nil
+		}
+	}
+	return nil
+}
